@@ -499,6 +499,13 @@ impl<W: Wire> Write for SimPort<W> {
     fn write(&mut self, buf: &[u8]) -> io::Result<usize> {
         self.wire.wire_write(buf)
     }
+    /// A port with native gather writes (as a tty or a socket has): the buffers are offered to the
+    /// wire as one piece, so a short write may end anywhere, also between two buffers' bytes. The
+    /// unchanged tree never writes gathered; a tree that does must get its continuation right.
+    fn write_vectored(&mut self, bufs: &[io::IoSlice<'_>]) -> io::Result<usize> {
+        let all: Vec<u8> = bufs.iter().flat_map(|b| b.iter().copied()).collect();
+        self.wire.wire_write(&all)
+    }
     fn flush(&mut self) -> io::Result<()> {
         self.wire.wire_flush()
     }
